@@ -51,7 +51,8 @@ META = {
         'note': 'MulAddFusion::{identify_candidates, filter_valid, apply}, the non-primitive emitters and the CircuitBuilder wrappers above ExpressionBuilder are NOT under contract. '
                 'x/x folds to 1 and 0/x to 0: the division contract is stated for valuations with a non-zero divisor. Built without the debugging/profiling features (R10). '
                 'Trusted: Verus/Z3/vstd, Kani/CBMC, the extractor and its logged rewrites (R1-R12), hashbrown==std HashMap, key model of derived Hash/Eq, '
-                'opaque executors, wf_op shape of lowered ops.',
+                'opaque executors, wf_op shape of lowered ops.'
+                ' Round 19: unit hintx (the decomposition hints never overwrite a set slot: a connect between a hint output and an earlier-populated expression is enforced at run time).',
     },
     'C03': {
         'technique': 'Verus contracts on extracted real functions (Deduplicator) + Kani loop-free harness on AluKey',
@@ -75,7 +76,8 @@ META = {
                 'set_public_inputs,set_private_inputs,execute_alu_op,execute_all} (Verus, all circuits / all inputs: wrong length is an error and changes nothing, a set slot never '
                 'changes value, Ok of execute_all means every Const/Public/ALU op left its relation in the table, a withheld public input is an error). '
                 'Not under contract: CircuitRunner::{new,set_private_data,run} and the executors (assumed monotone). Kani: slice of 3 symbolic slots, symbolic u32 index, BabyBear. '
-                'Trusted: Verus/Z3, Kani/CBMC, rustc cfg selection via -C debug-assertions, extractor rewrites.',
+                'Trusted: Verus/Z3, Kani/CBMC, rustc cfg selection via -C debug-assertions, extractor rewrites.'
+                ' Later rounds: set_private_data, the executor guard slices (unit pexec), the direction-bit readers (unit pbits) and -- round 19 -- the store of the two decomposition hints (unit hintx: hint executors write the raw witness table, outside the runner\'s own conflict detection; a set slot is never overwritten, a set slot holding another value is an error) are under contract.',
     },
 }
 
@@ -120,7 +122,8 @@ META['C15'] = {
             " Round 15: the width of the query index is sum(log_arities) + the verifier's own log_final_poly_len + log_blowup (c15guard..[query_index_width] x2); the uni-STARK verifier rejects claimed degree bits below the ZK adjustment (c15guard..[zk_degree_guard]).",
     'note': 'Kernel: validate_proof_shape (stark.rs), validation prefix of verify_fri_circuit (R13 prefix extraction), CommitPhaseProofStepTargets::new. Not yet under contract: '
             'the per-instance loop of verify_batch_circuit (its unchecked lookup_terminals index was found by reading and fixed: F3), MMCS cap/path split, panics inside p3 dependencies. '
-            'Assumed: 64-bit usize, log_arities entries originate from a u8, realistic proof sizes (< 2^32 phases, extension degree < 2^16). Error message strings dropped.',
+            'Assumed: 64-bit usize, log_arities entries originate from a u8, realistic proof sizes (< 2^32 phases, extension degree < 2^16). Error message strings dropped.'
+            ' Later rounds (this note\'s `not yet` list is superseded): units bshape / bprep / c15guard put the batch verifier\'s shape checks, the MMCS cap/path split, the metadata guard and the degree guards under contract; round 19: unit vbatch\'s panic-freedom obligations (indexing, and every debug assertion provable from the checks made before it) count for C15.',
 }
 
 META['C12'] = {
@@ -199,7 +202,8 @@ META['C08'] = {
             'Not under contract: add_hash_base_coeffs_overwrite (base-coefficient route; assumed callee of the D=1-in-extension branch), path compression rows and direction bits, arity-4 schedules '
             '(itertools-heavy), the MMCS executor, and the iff with the native Merkle verifier. Assumed: one permutation row = permute(bus-read limbs, zero on chain start / previous row output for omitted '
             'limbs) (executor semantics; C06 examines enforcement); native sponge transcribed; reset = true as at all call sites; single-chunk merkle_seed rows unspecified. select_cap_entry '
-            'preconditions: |cap| = 2^|bits|, equal row widths (the debug_assert in the code), boolean bits.',
+            'preconditions: |cap| = 2^|bits|, equal row widths (the debug_assert in the code), boolean bits.'
+            ' Later rounds (this note\'s `not under contract` list is superseded): units hashb (add_hash_base_coeffs_overwrite, whole), a4sched / a4path (arity-4 schedule and walk), mbind (path rows), pexec (state assembly order) are under contract; round 19: add_mmcs_verify emits an injection row at every level after the first whose digest list is not empty (ghost count); the H-marker assertions of unit mbind are proved in isolated sub-proofs (a failed assertion would otherwise be assumed by what follows).',
 }
 
 META['C09'] = {
